@@ -57,6 +57,9 @@ where
                 self.memory_tracker
                     .decrement_used_memory(oldest_size.as_bytes_u64());
                 self.current_size -= oldest_size;
+            } else {
+                // Nothing left to evict in this buffer, the element is added anyway (like `extend`).
+                break;
             }
         }
 
